@@ -31,6 +31,10 @@ func genHistory(r *Rng, cfg *Config, n int, lsW []int, pInterpose float64) []Op 
 			ops = append(ops, genBoundaryStageFail(r, cfg)...)
 			continue
 		}
+		if r.Chance(0.04) {
+			ops = append(ops, genSnapshotWindow(r, cfg, lsW)...)
+			continue
+		}
 		op := genLSOp(r, cfg, lsW)
 		if op.Kind != "sleep" && r.Chance(pInterpose) {
 			k := 1
